@@ -708,7 +708,7 @@ impl Enumerate for ListIterator {
   }
 
   fn size_hint(&self) -> Option<usize> {
-    Some(self.list.len())
+    Some(self.list.len().saturating_sub(self.index))
   }
 
   fn as_debug(&self) -> &dyn DebugHeap {
